@@ -57,7 +57,9 @@ def find_decision(ctx, facts, cfg):
         if f is None:
             return None, consumers
         called = set()
-        for b, t in f.body.calls():
+        fin = core.inlined_fn(facts, c, lambda g, t, f0=f: (not g.reachable and not g.impl_trait and not g.in_trait and g.kind != 'Closure' and g.file == f0.file
+                                                          and not (g.output or '').startswith('std::result::Result<bool, Error>')), tag='c09d')
+        for b, t in fin.body.calls():
             p = t['callee'].get('path')
             g = facts.fns.get(p)
             if g is not None and (g.output or '').startswith('std::result::Result<bool, Error>'):
@@ -171,7 +173,8 @@ def check(ctx, facts, cfg):
             continue
         decisive[s] = (a, neg)
         ctx.ok('C09.a-decision-domain', '%s:bb-atom:%s@%s' % (dec, '/'.join(map(str, a)), cfg), {'atom': core.show(c)[:120], 'site': t['line']})
-    ctx.floor('C09.a-decision-domain', 2, len(decisive), 'decisive branches in %s' % dec, cfg=cfg)
+    n_atoms = len(decisive) + sum(1 for v in ok_val.values() if isinstance(v, tuple))     # a branch, or a comparison returned as the result
+    ctx.floor('C09.a-decision-domain', 2, n_atoms, 'decisive comparisons in %s' % dec, cfg=cfg)
     if any(v is None for v in ok_val.values()):
         ctx.violation('C09.a-decision-table', 'non-constant-ok', 'decision returns a computed boolean, not a constant per path', site=f.span, fn=dec, cfg=cfg)
         return
@@ -253,7 +256,7 @@ def check(ctx, facts, cfg):
     for cp in consumers:
         # private helpers of the same file (constructing / reconfiguring the inner codec) are analysed in place
         cf = core.inlined_fn(facts, cp, lambda g, t, f0=facts.fns[cp]: (not g.reachable and not g.impl_trait and not g.in_trait and g.kind != 'Closure'
-                                                                        and g.file == f0.file and g.path != dec), tag='c09')
+                                                                        and g.file == f0.file and g.path != dec), tag='c09d')
         cb = cf.body
         dcalls = [(b, t) for b, t in cb.calls() if t['callee'].get('path') == dec]
         okargs = dcalls and all([cb.canon_op(a) for a in t['args']] == [('param', 'original_count'), ('param', 'recovery_count')] for b, t in dcalls)
@@ -303,7 +306,8 @@ def check(ctx, facts, cfg):
         if not ((fn.impl_self_adt or '').startswith(DR + 'DefaultRate') and fn.impl_trait in deleg and fn.name in deleg[fn.impl_trait]):
             continue
         nd += 1
-        b = fn.body
+        # the dispatch may live in a private method of the inner enum that the trait method forwards to
+        b = core.inlined_fn(facts, p, lambda g, t, f0=fn: (not g.reachable and not g.impl_trait and not g.in_trait and g.kind != 'Closure' and g.file == f0.file), tag='c09c').body
         params = fn.param_names()
         crate_calls = [(bb, t) for bb, t in b.calls() if t['callee'].get('local')]
         kinds = set()
